@@ -86,6 +86,7 @@ type Chip struct {
 	MFFilesFromApplication bool
 	Lenient2E              bool // accept the 6-byte "CLA INS P1 P2 LeHi LeLo" form for READ BINARY (non-ISO, emitted by gmrtd for Le>256 without data)
 	NoAccessRules          bool // file-only personality: every file readable in the clear
+	StrictNe               bool // authentication answers longer than the command's Ne are refused (6Cxx), never sent in full
 	ImplicitMFOnly         bool // SELECT MF only in the form without data
 	// ReadChoice decides how many bytes (1..min(Ne,Avail)) a READ BINARY returns; nil = all. Returning 0 means "reject with 6700".
 	ReadChoice func(r ReadReq) int
@@ -280,11 +281,22 @@ func (c *Chip) exec(cmd *ref7816.Cmd, protected bool) ([]byte, uint16) {
 	case 0x22:
 		return c.doMSE(cmd)
 	case 0x86:
-		return c.doGeneralAuth(cmd, protected)
+		return c.withinNe(cmd, func() ([]byte, uint16) { return c.doGeneralAuth(cmd, protected) })
 	case 0x88:
-		return c.doInternalAuth(cmd)
+		return c.withinNe(cmd, func() ([]byte, uint16) { return c.doInternalAuth(cmd) })
 	}
 	return nil, 0x6D00
+}
+
+// withinNe: Ne is the MAXIMUM number of response data bytes (ISO/IEC 7816-4 5.1). A chip with StrictNe set never
+// returns more than the command asked for: an authentication answer that does not fit is refused with 6Cxx
+// ("wrong Le; xx bytes available") instead of being sent in full.
+func (c *Chip) withinNe(cmd *ref7816.Cmd, f func() ([]byte, uint16)) ([]byte, uint16) {
+	d, s := f()
+	if c.StrictNe && s == 0x9000 && cmd.Le > 0 && len(d) > cmd.Le {
+		return nil, 0x6C00 | uint16(len(d)&0xFF)
+	}
+	return d, s
 }
 
 func (c *Chip) doSelect(cmd *ref7816.Cmd) ([]byte, uint16) {
